@@ -371,6 +371,10 @@ func genRecords(r *rand.Rand, n, nref int, max int, tile int) []rec {
 		case 0:
 		case 6: // jump over whole tiles: the tiles in between are touched by no record
 			pos += tile * (2 + r.Intn(6))
+			if r.Intn(4) == 0 && pos < max/2 {
+				// into the upper half of the indexable range
+				pos = max/2 + []int{-1, 0, 1, r.Intn(max/2 - 16*tile)}[r.Intn(4)]
+			}
 		case 1:
 			pos += r.Intn(100)
 		case 2:
@@ -404,6 +408,10 @@ func genRecords(r *rand.Rand, n, nref int, max int, tile int) []rec {
 		}
 		if pos+ln > max-2 {
 			ln = max - 2 - pos
+		}
+		if n := len(out); n > 0 && out[n-1].ref == ref && r.Intn(5) == 0 {
+			// the same interval as the record before (so the same bin)
+			pos, ln = out[n-1].beg, out[n-1].end-out[n-1].beg
 		}
 		cb, ce := next()
 		out = append(out, rec{ref: ref, beg: pos, end: pos + ln, cb: cb, ce: ce, placed: true, mapped: r.Intn(8) != 0})
